@@ -72,3 +72,57 @@ Proof.
   split; [exact ex_d0_dinv|]. split; [vm_compute; reflexivity|].
   destruct ex_recovery as (_ & H2 & _ & H4 & _). split; assumption.
 Qed.
+
+(** END TO END (Durable.v): the three pieces composed - the record-level store with its byte images
+    ([Layout.render]), the buffered files ([Buf.v], chunk sizes [cv ck ch] arbitrary > 0, contents =
+    the chunks of the images) and the independent reader ([Load.load]).  [cst] = store + buffers;
+    [tracks c]: what reads see in the buffers is exactly the chunked image of the current store;
+    [crun]: any history of puts, deletes, evictions of arbitrary chunks, flushes and syncs that may
+    have failed under arbitrary fault oracles.  WHENEVER a flush (or sync) then returns Ok, the
+    bytes on disk - un-chunked - ARE [render] of the current store; a reader of the format applied
+    to that directory copy gets back exactly the current state, with exactly the contents of the
+    ideal map after all updates of the history. *)
+From Aby Require Import Vu64 KeyTypes Consts Sizing Alloc Htx Layout Load Spec Refine Refine_all Load_all Durable.
+
+Theorem C03_flush_makes_the_current_state_durable : forall cv ck ch, 0 < cv -> 0 < ck -> 0 < ch ->
+  forall c ops c' (o : fid -> oracle bytes) d2 m,
+  wf_state (c_store c) -> tracks cv ck ch c -> dinv (c_buf c) -> represents (c_store c) m ->
+  cops_wf (kt (c_store c)) ops ->
+  crun cv ck ch c ops = Ok c' ->
+  dflush o (c_buf c') = (d2, true) ->
+  exists imgs, render (c_store c') = Ok imgs /\
+    disk_imgs d2 = imgs /\
+    view d2 = view (c_buf c') /\
+    (fits64 (c_store c') -> exists s'', load (kt (c_store c')) imgs = Ok s'' /\
+        hx s'' = hx (c_store c') /\ keyf s'' = keyf (c_store c') /\ valf s'' = valf (c_store c')) /\
+    (fits64 (c_store c') -> exists s'' l, load (kt (c_store c')) imgs = Ok s'' /\ contents s'' = Ok l /\
+        l ≡ₚ map_to_list (fst (spec_run m (updates_of ops)))).
+Proof. exact C03_flush_makes_current_state_durable. Qed.
+
+Theorem C03_sync_makes_the_current_state_durable : forall cv ck ch, 0 < cv -> 0 < ck -> 0 < ch ->
+  forall c ops c' all (o : fid -> oracle bytes) d2 m,
+  wf_state (c_store c) -> tracks cv ck ch c -> dinv (c_buf c) -> represents (c_store c) m ->
+  cops_wf (kt (c_store c)) ops ->
+  crun cv ck ch c ops = Ok c' ->
+  dsync all o (c_buf c') = (d2, true) ->
+  exists imgs, render (c_store c') = Ok imgs /\
+    disk_imgs d2 = imgs /\
+    view d2 = view (c_buf c') /\
+    (fits64 (c_store c') -> exists s'', load (kt (c_store c')) imgs = Ok s'' /\
+        hx s'' = hx (c_store c') /\ keyf s'' = keyf (c_store c') /\ valf s'' = valf (c_store c')) /\
+    (fits64 (c_store c') -> exists s'' l, load (kt (c_store c')) imgs = Ok s'' /\ contents s'' = Ok l /\
+        l ≡ₚ map_to_list (fst (spec_run m (updates_of ops)))).
+Proof. exact C03_sync_makes_current_state_durable. Qed.
+
+(** a map that was only created and never updated: after the first successful flush the directory
+    opens as a valid EMPTY map *)
+Theorem C03_created_only_opens_empty : forall cv ck ch, 0 < cv -> 0 < ck -> 0 < ch ->
+  forall t n imgs0 (o : fid -> oracle bytes) d2,
+  1 <= n -> render (create t n) = Ok imgs0 ->
+  dflush o (c_buf (created cv ck ch t n imgs0)) = (d2, true) ->
+  disk_imgs d2 = imgs0 /\
+  view d2 = imgs_view cv ck ch imgs0 /\
+  (fits64 (create t n) -> exists s'', load t imgs0 = Ok s'' /\
+      hx s'' = hx (create t n) /\ keyf s'' = keyf (create t n) /\ valf s'' = valf (create t n) /\
+      contents s'' = Ok []).
+Proof. exact C03_created_only. Qed.
